@@ -124,6 +124,13 @@ func run(rt *rapid.T) {
 		}
 		for i := gen.Uniform(rt, 1, 3, "nchurn"); i > 0; i-- {
 			ki := gen.Uniform(rt, 0, len(present)-1, "churnki")
+			if len(present) > 2 && gen.Chance(rt, 35, "churndel") {
+				// a key goes (branches fold), the source is committed at the same level again, and only then exported
+				src.Delete(present[ki])
+				absent = append(absent, present[ki])
+				present = append(append([][]byte{}, present[:ki]...), present[ki+1:]...)
+				continue
+			}
 			src.Update(present[ki], wmkit.GenValue(rt, ki, &counter, true))
 		}
 		if mode != "memory" {
@@ -363,7 +370,7 @@ func TestLargeExport(t *testing.T) {
 			weight[string(keys[i])] = w
 			total += w
 		}
-		for round, req := range [][][]byte{keys, keys[:3000], keys[:9]} {
+		for round, req := range [][][]byte{keys, keys[:3000], keys[:9], keys[5000:5101], keys[6000:6201], keys[7000:7100], keys[8000:9001], keys[9100:9199]} {
 			root := append([]byte(nil), src.Root()...)
 			data, err := src.GetPath(req)
 			if err != nil {
@@ -377,6 +384,9 @@ func TestLargeExport(t *testing.T) {
 				t.Fatalf("export of %d keys of %d: partial trie root %x weight %d, source %x weight %d", len(req), nkeys, part.Root(), part.Weight(), root, total)
 			}
 			k := req[len(req)/2]
+			if round >= 3 {
+				k = req[len(req)-1] // the last key of the request
+			}
 			val := []byte(fmt.Sprintf("changed-%d", round))
 			errP, errS := part.Update(k, val, 9), src.Update(k, val, 9)
 			if errP != nil || errS != nil {
